@@ -207,6 +207,30 @@ CHECKS = {
 NOT_YET = {}
 
 
+COMMON_NOTE = ('; every second shard does its work on a worker thread, after the main thread has imported pycel '
+               '(nothing promised may depend on the importing thread)')
+EXTRA_NOTES = {
+    'C01': '; a share of the histories runs on the workbooks shipped with the repository (primed so that every value '
+           'is computed); recalculate / value_tree_str / export_to_gexf are called in between and only the values of '
+           'later evaluate calls are judged',
+    'C03': '; also the shipped workbooks, sequences of saves of one model to one base name, floats with 16-17 digits',
+    'C04': '; also read traces of the shipped workbooks (OFFSET / INDIRECT cells exempt: computed references)',
+    'C05': '; also the shipped workbooks, acyclic workbooks saved with iterative calculation on, and a comparison '
+           'of the in-process reference values with those of a forked child of a process that never saw a workbook '
+           '(state that outlives a workbook)',
+    'C07': '; interpreter-wide settings (recursion limit, switch interval, working directory) are sampled at every '
+           'hook event and at quiescence; thread B works on a workbook with other values for value-carrying workloads',
+    'C08': '; also twin runs on the shipped workbooks, a trim that must be refused before the real one, an input that is '
+           'also an output and has no dependants listed first',
+    'C09': '; fault kinds also: NameError inside a plugin, unknown function named like a python keyword or like a '
+           'constant of the math module; repair constants include 0; a write to a former precedent after the repair; '
+           'faults injected into the shipped workbooks',
+    'C12': '; also workbooks saved with iterative calculation on, stored results computed by a pristine process, the '
+           'shipped workbooks with one stored result altered in the file, formula_cells() listed first, two cells '
+           'failing for the same reason',
+}
+
+
 def main():
     with open(os.path.join(HERE, 'properties.jsonl')) as f:
         props = [json.loads(line) for line in f]
@@ -225,7 +249,7 @@ def main():
                 'replay_cmd_template': f'{RUN} {pid} --replay {{path}}',
                 'engine': 'vp',
                 'level_claimed': {'category': c['level'], 'text': c['text'], 'design_ref': c['design']},
-                'level_note': c['note'],
+                'level_note': c['note'] + COMMON_NOTE + EXTRA_NOTES.get(pid, ''),
                 'technique': c['technique'],
             })
         else:
